@@ -285,11 +285,13 @@ def judge(R: Recorder, cfg: dict[str, Any], chooser: Chooser, log: dict[str, Any
 
 
 def configs(tier: str):  # noqa: ANN201
-    for n in (2, 3):
+    for n in ((2, 3) if tier == "quick" else (2, 3, 4)):
         for keys in itertools.product("AB", repeat=n):
             if keys[0] != "A":
                 continue
             subsets = [()] + [(i,) for i in range(n)] + ([(0, 1)] if n == 2 else [(0, 2)])
+            if n == 4:
+                subsets = [(), (0,), (3,), (1, 2)]
             for cancels in subsets:
                 for expire in (False, True):
                     for limit in (1, 2):
